@@ -1051,6 +1051,10 @@ func (fr *Frame) typeAssert(st *State, x *ssa.TypeAssert) {
 		ok = Eq(sx("typeOf", v), vc.tyID(at))
 		res = sx(vc.unboxFn(at), v)
 		vc.sc.Axiom(Implies(ok, Eq(vc.boxNoAxiom(at, res), v)))
+		if isPointerLike(at) {
+			// an interface holding a pointer: the pointer is non-nil exactly when the value is "valid"
+			vc.sc.Axiom(Implies(ok, Eq(sx("vnn", v), Not(Eq(res, "nilref")))))
+		}
 	}
 	if x.CommaOk {
 		on := vc.sc.Fresh(fr.prefix+"taok", "Bool")
@@ -1058,12 +1062,14 @@ func (fr *Frame) typeAssert(st *State, x *ssa.TypeAssert) {
 		rn := vc.sc.Fresh(fr.prefix+"ta", vc.sortOf(at))
 		vc.sc.Def(Eq(rn, Ite(on, res, vc.zeroOf(at))))
 		fr.tuples[x] = []Term{rn, on}
+		vc.wf(st, rn, at)
 		return
 	}
 	if vc.opts.Safety {
 		vc.oblig(fr, st, "type-assert", "", describe(x, 0), ok, x.Pos())
 	}
-	fr.define(x, res)
+	n := fr.define(x, res)
+	vc.wf(st, n, at)
 }
 
 func (vc *VC) boxNoAxiom(t types.Type, x Term) Term {
